@@ -91,7 +91,9 @@ func c06Trace(t *harness.Trace, movement string) (fp, what string) {
 		if len(call.Waits) >= 3 && call.Waits[1].Obs != nil && call.Waits[1].Obs.Kind != "arg" && call.Waits[1].Obs.Local == "" {
 			last = call.Waits[1].Obs
 		}
-		if first != nil && last != nil && first.Local == "" && last.Local == "" && first.Line != last.Line {
+		// (a command delivered while another one waits for its argument key is that argument, and the
+		// rest of its keys are typed text: only commands dispatched by the main loop are judged)
+		if first != nil && last != nil && first.Kind == "main" && first.Local == "" && last.Local == "" && first.Line != last.Line {
 			return "movement-edits-buffer/" + movement, fmt.Sprintf("%s changed the buffer from %q to %q", movement, first.Line, last.Line)
 		}
 	}
